@@ -159,8 +159,30 @@ fn c03_entry(input: &Input, obs: &mut Obs) -> Result<(), Fail> {
 
 /// connection under an arbitrary call sequence, continuing after every kind of error
 pub fn c03_conn_run(s: &mut Src, stream: Vec<u8>, limit: Option<usize>, obs: &mut Obs) -> Result<String, Fail> {
+    let mut pipes: Vec<Pipe> = Vec::new();
+    let mut handed: Vec<RawFd> = Vec::new();
+    let r = c03_conn_run_inner(s, stream, limit, obs, &mut pipes, &mut handed);
+    // the connection is gone by now: close what the harness still owns
+    for p in &pipes {
+        if !handed.contains(&p.rd) {
+            unsafe { libc::close(p.rd) };
+        }
+        unsafe { libc::close(p.wr) };
+    }
+    r
+}
+
+fn c03_conn_run_inner(s: &mut Src, stream: Vec<u8>, limit: Option<usize>, obs: &mut Obs, pipes: &mut Vec<Pipe>, handed: &mut Vec<RawFd>) -> Result<String, Fail> {
     let total = stream.len();
     let (st, ss) = ScriptedStream::new(stream);
+    // whatever happens below, report which descriptors the connection took over
+    struct Report<'a>(std::rc::Rc<std::cell::RefCell<Script>>, &'a mut Vec<RawFd>);
+    impl<'a> Drop for Report<'a> {
+        fn drop(&mut self) {
+            *self.1 = self.0.borrow().handed_fds.clone();
+        }
+    }
+    let _report = Report(ss.clone(), handed);
     let mut conn = HttpConnection::new(st);
     if let Some(l) = limit {
         conn.set_payload_max_size(l);
@@ -195,7 +217,18 @@ pub fn c03_conn_run(s: &mut Src, stream: Vec<u8>, limit: Option<usize>, obs: &mu
                             2 => s.range(1, 40),
                             _ => s.range(1, window),
                         };
-                        ReadEv::Data { want, fds: vec![] }
+                        // now and then descriptors ride on the read
+                        let mut fds = vec![];
+                        if s.chance(12) && pipes.len() < 8 {
+                            for _ in 0..s.range(1, 2) {
+                                if let Some(p) = mkpipe(7000 + pipes.len() as u32) {
+                                    fds.push(p.rd);
+                                    pipes.push(p);
+                                }
+                            }
+                            obs.label("descriptors_on_a_read");
+                        }
+                        ReadEv::Data { want, fds }
                     }
                     1 => ReadEv::Eagain,
                     2 => ReadEv::Eintr,
@@ -335,6 +368,8 @@ enum WOp {
     Read(usize),
     /// the owner discards all pending output (public `clear_write_buffer`)
     Clear,
+    /// a receive that reports end of stream (the peer half-closed); output is not affected by it
+    Eof,
 }
 
 fn c06_run(ops: &[WOp], obs: &mut Obs) -> Result<(), Fail> {
@@ -388,6 +423,20 @@ fn c06_run_with_input(ops: &[WOp], input: &[u8], obs: &mut Obs) -> Result<(), Fa
                 resp_bounds.clear();
                 pending_resps = 0;
                 continue;
+            }
+            WOp::Eof => {
+                if reading_stopped {
+                    continue;
+                }
+                ss.borrow_mut().next_read = Some(ReadEv::Eof { fds: vec![] });
+                let r = catch_unwind(AssertUnwindSafe(|| conn.try_read()));
+                ss.borrow_mut().next_read = None;
+                if let Err(p) = r {
+                    return Err(Fail::new("C06:panic", format!("try_read panicked at op {}: {}", i, panic_msg(p))));
+                }
+                reading_stopped = true;
+                obs.label("end_of_input_with_output_pending");
+                // falls through to the invariants: nothing about the output may have changed
             }
             WOp::Read(want) => {
                 if reading_stopped || ss.borrow().pos >= ss.borrow().input.len() {
@@ -566,6 +615,7 @@ fn c06_hist(input: &Input, obs: &mut Obs) -> Result<(), Fail> {
                     WOp::Write(e) => format!("try_write[{:?}]", e),
                     WOp::Read(n) => format!("try_read[{}]", n),
                     WOp::Clear => "clear_write_buffer".to_string(),
+                    WOp::Eof => "try_read[EOF]".to_string(),
                 })
                 .collect::<Vec<_>>()
         );
@@ -587,7 +637,8 @@ fn c06_mixed(input: &Input, obs: &mut Obs) -> Result<(), Fail> {
     let nops = s.range(3, 50);
     let mut ops = Vec::new();
     for _ in 0..nops {
-        match s.weighted(&[8, 5, 10, 1]) {
+        match s.weighted(&[8, 5, 10, 1, 1]) {
+            4 => ops.push(WOp::Eof),
             3 => ops.push(WOp::Clear),
             0 => ops.push(WOp::Read([1usize, 7, 40, 200, 1024][s.below(5)])),
             1 => {
@@ -614,7 +665,7 @@ fn c06_mixed(input: &Input, obs: &mut Obs) -> Result<(), Fail> {
     }
     obs.case_hash = Some(fnv64(input.bytes()));
     if obs.want_render {
-        obs.render = format!("stream=\"{}\" ops={:?}", esc(&stream), ops.iter().map(|o| match o { WOp::Enq(v, c, calls) => format!("enqueue(v{} {} {}B)", v, c, build_model(*v, *c, calls).bytes().len()), WOp::Write(e) => format!("try_write[{:?}]", e), WOp::Read(n) => format!("try_read[{}]", n), WOp::Clear => "clear_write_buffer".to_string() }).collect::<Vec<_>>());
+        obs.render = format!("stream=\"{}\" ops={:?}", esc(&stream), ops.iter().map(|o| match o { WOp::Enq(v, c, calls) => format!("enqueue(v{} {} {}B)", v, c, build_model(*v, *c, calls).bytes().len()), WOp::Write(e) => format!("try_write[{:?}]", e), WOp::Read(n) => format!("try_read[{}]", n), WOp::Clear => "clear_write_buffer".to_string(), WOp::Eof => "try_read[EOF]".to_string() }).collect::<Vec<_>>());
     }
     Ok(())
 }
